@@ -13,7 +13,7 @@
    (the hash), `nlen` (name length) and `H` (header length) are arbitrary. *)
 From Coq Require Import List NArith ZArith Bool.
 From Tele Require Import Gen.Consts Model.FileConc Proofs.FileConcBase Proofs.FileConcInv
-  Proofs.FileConcThms Proofs.FileConcWitness.
+  Proofs.FileConcThms Proofs.FileConcWitness Proofs.FileConcInv2 Proofs.FileConcProgress.
 Import ListNotations.
 Open Scope N_scope.
 
@@ -109,6 +109,47 @@ Theorem C04_survivor_failed_refuted :
   f_size (fst st) = 32768 /\ f_chain (fst st) 1 = [16384].
 Proof. exact (conj w_nlen_pos (conj w_init_ok w_run)). Qed.
 Print Assumptions C04_survivor_failed_refuted.
+
+(* survivor_not_failed, positive part (names not empty): whatever the other
+   processes do and whoever is killed, a call of newCounter fails only
+   - for its own over-long name (FTooLong), or
+   - in the stale-mapping class of the known finding: the duplicate walk met
+     an entry beyond the mapping (FBeyond) or ten remaps did not catch up
+     (FTries), or
+   - at the model's 4 GiB offset bound (FRange);
+   in particular the cycle guards, writeEntryAt's bounds test, extend's
+   length test and the two "corrupt limit" tests never fire. *)
+Theorem C04_failures_classified : forall bucket nlen H,
+  (forall nm, 1 <= nlen nm) ->
+  forall st0 sched, init_ok bucket nlen H st0 ->
+  forall i t e, nth_error (snd (run bucket nlen H sched st0)) i = Some t -> In (RFail e) (t_res t) ->
+    e = FTooLong \/ e = FBeyond \/ e = FTries \/ e = FRange.
+Proof. exact failures_classified. Qed.
+Print Assumptions C04_failures_classified.
+
+(* nonblocking (names not empty).  phi (Proofs/FileConcProgress.v) bounds the
+   steps a process still needs for its current call; it depends on the file
+   and on the process's own locals only, never on another process's program
+   point, so a killed process holds nothing anybody waits for.
+   progress f' t t' b := the call completed (fewer calls remain) or
+   (same calls remain and phi f' t' < b). *)
+Theorem C04_nonblocking : forall bucket nlen H,
+  (forall nm, 1 <= nlen nm) ->
+  forall st0 sched, init_ok bucket nlen H st0 ->
+  let st := run bucket nlen H sched st0 in
+  forall i t, nth_error (snd st) i = Some t ->
+  (t_pc t <> Done ->
+     exists t', nth_error (snd (step bucket nlen H st i)) i = Some t' /\
+                progress bucket nlen H (fst (step bucket nlen H st i)) t t' (phi bucket nlen H (fst st) t)) /\
+  (forall j, j <> i ->
+     nth_error (snd (step bucket nlen H st j)) i = Some t /\
+     phi bucket nlen H (fst (step bucket nlen H st j)) t
+       <= phi bucket nlen H (fst st) t + 20 + 2 * Lc (fst (step bucket nlen H st j)) (bucket (t_nm t)) /\
+     (~ cas_step bucket nlen H st j ->
+        phi bucket nlen H (fst (step bucket nlen H st j)) t <= phi bucket nlen H (fst st) t)) /\
+  (exists k t', nth_error (snd (run bucket nlen H (repeat i k) st)) i = Some t' /\ t_pc t' = Done).
+Proof. exact nonblocking. Qed.
+Print Assumptions C04_nonblocking.
 
 (* the empty counter name (known finding, class empty-name): one process
    links a record whose length field reads 0; every later lookup in that
